@@ -113,9 +113,9 @@ func scaleReplay(in io.Reader, raw bool, args []string) (*Summary, error) {
 						sum.viol("NewLog", c, "NewLog(%v,%v,%d): err=%v want accepted=%v", float64(nl.Mn)*k, float64(nl.Mx)*k, nl.Base, err, nl.OK)
 						continue
 					}
-					var re scale.RangeErr
-					if err != nil && !errors.As(err, &re) {
-						sum.viol("NewLog", c, "NewLog error %T is not a RangeErr", err)
+					// "returns a RangeErr": the error value itself, also when several arguments are wrong at once
+					if _, isRE := err.(scale.RangeErr); err != nil && !isRE {
+						sum.viol("NewLog", c, "NewLog(%v,%v,%d): the error returned is a %T, not a RangeErr", float64(nl.Mn)*k, float64(nl.Mx)*k, nl.Base, err)
 					}
 					if err == nil && (s.Min > s.Max || s.Base != nl.Base) {
 						sum.viol("NewLog", c, "NewLog(%v,%v) = %+v", nl.Mn, nl.Mx, s)
@@ -203,5 +203,48 @@ func scaleReplay(in io.Reader, raw bool, args []string) (*Summary, error) {
 			}
 		}
 	})
+	scaleAdjacent(sum)
 	return sum, err
+}
+
+// scaleAdjacent: "strictly monotone" looked at through the finest lens - runs of five neighbouring floats around simple
+// multiples of Min (1.25, 1.5, 2, 3, 5, 10 ... times Min, where an implementation might switch formulas).  Between neighbouring
+// floats Map may stay equal (the log of two neighbours can round to one float) but must not step back by more than rounding
+// (4 ulps of the value); Unmap(Map(x)) stays within 1e-9 relative.
+func scaleAdjacent(sum *Summary) {
+	c := json.RawMessage(`{"adjacent":1}`)
+	type dom struct{ mn, mx float64 }
+	doms := []dom{{1e12, 1e15}, {1e-12, 1e-9}, {3, 3000}, {123.456, 9e5}, {0.7, 1.9}, {-1e15, -1e12}, {1e15, 1e12}, {5e-324 * (1 << 20), 1}}
+	mults := []float64{1.0625, 1.25, 1.5, 2, 2.5, 3, math.E, 4, 5, 7, 10, 16, 100, 1000}
+	for _, d := range doms {
+		for _, base := range []int{2, 10} {
+			lg, err := scale.NewLog(d.mn, d.mx, base)
+			if err != nil {
+				continue
+			}
+			lg.Min, lg.Max = d.mn, d.mx
+			up := math.Abs(d.mx) > math.Abs(d.mn) // Map increases with |x| iff the domain does
+			for _, m := range mults {
+				x := d.mn * m
+				run := []float64{x}
+				for k := 0; k < 2; k++ {
+					run = append([]float64{math.Nextafter(run[0], 0)}, run...)
+					run = append(run, math.Nextafter(run[len(run)-1], math.Inf(int(math.Copysign(1, x)))))
+				}
+				// run is ordered by growing |x|
+				sum.Checks++
+				for k := 1; k < len(run); k++ {
+					a, b := lg.Map(run[k-1]), lg.Map(run[k])
+					if !up {
+						a, b = b, a
+					}
+					slack := 4 * (math.Nextafter(math.Abs(b), math.Inf(1)) - math.Abs(b))
+					if !(b >= a-slack) {
+						sum.viol("Log-monotone-adjacent", c, "Log[%v,%v] base %d: Map(%.17g)=%.17g and Map(%.17g)=%.17g are out of order by more than rounding", d.mn, d.mx, base, run[k-1], lg.Map(run[k-1]), run[k], lg.Map(run[k]))
+						break
+					}
+				}
+			}
+		}
+	}
 }
